@@ -118,7 +118,7 @@ class QGen:
             c = r.choice(["one", "lit", "lit", "num", "num", "flt", "mk", "mk", "firstcat", "one"])
         else:
             pool = ["add", "add", "mulf", "flagged", "pair", "none_default", "unann", "cat", "cat", "ident", "withctx",
-                    "sub", "subin", "filename", "getvar", "tag", "let", "let", "flag", "state_variable", "ns", "attr_up", "attr_low", "attr_camel",
+                    "sub", "subin", "filename", "ctxvar", "getvar", "tag", "let", "let", "flag", "state_variable", "ns", "attr_up", "attr_low", "attr_camel", "attr_false",
                     "lit", "num", "firstcat", "optint", "optfb"]
             if self.allow_volatile:
                 pool += ["vol", "nocache", "recache", "nonvol"]
@@ -208,6 +208,11 @@ class QGen:
             # labels the result from inside the pipeline (a trailing file name, if any, has the last word)
             a = [r.choice(["w.txt", "v.json", "u.b", "noext", "p.tar.gz", "q.html"])]
             self.feat("cmd.filename_label")
+            self._numeric_prefix = False
+        elif c == "ctxvar":
+            a = [r.choice(NAMES + ["tag", "nope"])]
+            self.feat("statevar.read_through_context")
+            self.feat("param.context")
             self._numeric_prefix = False
         elif c == "getvar" or c == "state_variable":
             a = [r.choice(NAMES + ["active_namespaces", "nope"])]
